@@ -271,7 +271,9 @@ impl ColumnType<'_> {
             ColumnType::Collection { .. } => None,
             ColumnType::Vector { typ, dimensions } => typ
                 .type_size_for_vector()
-                .map(|size| size * usize::from(*dimensions)),
+                // Saturate: nested vectors of fixed-size elements can declare more bytes than `usize` can count.
+                // A value that large cannot exist, so any read of such an element fails for lack of bytes.
+                .map(|size| size.saturating_mul(usize::from(*dimensions))),
             ColumnType::UserDefinedType { .. } => None,
         }
     }
